@@ -239,3 +239,27 @@ def bracket_level(db, ctx):
                         guarded = True
         ctx.ob("decrement-guarded", guarded, "`%s` is executed only when %s > 0: %s (a closer at level 0 must be ignored, not remembered as a negative balance)" % (render(n), nm, guarded), fn=f, site=n.get("sp"))
     ctx.ob("returns-usize", f.info.get("output", "").startswith("std::result::Result<usize"), "parenthesis_level returns %s" % f.info.get("output", "")[:50], fn=f)
+
+
+@rule("C16.units", "sentence detection works in BYTE offsets of the text: every quantity added to / compared with a candidate boundary is a byte "
+                   "length (regex match ends, str::len, len_utf8), never a count of code points — the units engine of C01 over sentence_detector / "
+                   "sentence_splitter")
+def units_rule(db, ctx):
+    from ..units import Units
+    total = 0
+    for k, f in sorted(db.fns.items()):
+        if f.pkg != "sudachi" or not f.hir or not ("::sentence_detector::" in k or "::sentence_splitter::" in k) or "::test" in k:
+            continue
+        u = Units(db, f)
+        conflicts, reached = u.check()
+        total += reached
+        seen = set()
+        for node, msg in conflicts:
+            if msg in seen:
+                continue
+            seen.add(msg)
+            ctx.ob("%s|%s" % (f.short(), msg[:80]), False, "%s: byte / code-point conflict — %s (MB = bytes of the text, MC = code points)" % (f.short(), msg), fn=f,
+                   site=node.get("sp") if isinstance(node, dict) else None)
+        if reached and not conflicts:
+            ctx.ob("%s|consistent" % f.short(), True, "%s: %d use-sites with a known unit, all consistent" % (f.short(), reached), fn=f)
+    ctx.ob("reached", total >= 3, "%d use-sites reached with a known unit (floor 3)" % total, nontrivial=False)
